@@ -210,7 +210,8 @@ class AddStreamedObjectsToPack(CUnit):
     allowed_exc = ()
     timeout_ms = 8000
     parallel = True
-    tier = 'thorough'
+    tier = 'quick'          # about 7 minutes on 14 cores; run under C03 and C09 in the every-change tier (memoised)
+    quick_props = ('C03', 'C09')
     variants = 'all'
     loops = {
         0: Loop(0, _asp_loop_list, havoc=_asp_havoc_list, fingerprint='True'),
@@ -295,12 +296,4 @@ def asp_hook(I, tag, payload):
         vc.check('commit:no_pack_handle_open', SBool.of(vc.ghost.get('$open_pack') is None or vc.ghost['$open_pack'].closed))
 
 
-class AddStreamedObjectsToPackQuick(AddStreamedObjectsToPack):
-    mode = 'defaults'
-    variants = 'defaults'
-    tier = 'quick'
-    props = ('C03', 'C09')
-    verify_only = True
-
-
-UNITS = [AddStreamedObjectsToPackQuick(), AddStreamedObjectsToPack()]
+UNITS = [AddStreamedObjectsToPack()]
